@@ -8,7 +8,7 @@ SLACK_STDIN = 65536          # "a bounded number of bytes past the value": the g
 SLACK_FILE = 65536 + 65536 + 16384   # pipe buffer + what the feeder had in flight + BufReader
 
 
-def gen(cs, rnd, n, fifo_share=0.3):
+def gen(cs, rnd, n, fifo_share=0.3, files_share=0.25):
     for i in range(n):
         cfg = PL.rand_cfg(rnd, "stop")
         cfg["sorts"] = []
@@ -63,8 +63,20 @@ def gen(cs, rnd, n, fifo_share=0.3):
         run = {"argv": PL.cfg_argv(cfg, rnd, extra), "stdin": hexs(data), "cycle": hexs(cyc), "cap": 4 << 20, "timeout_ms": 30000}
         if use_fifo:
             run = {"argv": PL.cfg_argv(cfg, rnd, extra) + ["@FIFO"], "stdin": "", "fifo": {"prefix": hexs(data), "cycle": hexs(cyc), "cap": 4 << 20}, "timeout_ms": 30000}
+        base, src = 0, "fifo" if use_fifo else "stdin"
+        if rnd.random() < files_share:
+            # the same bytes as file operands: the generated values in one or two regular files, the endless repetition in a named pipe after them -
+            # once the rows are out no later file is needed either (the bytes of the regular files count as pulled)
+            cut = rnd.choice([e + len(sep) for e in ends[:-1]]) if len(ends) > 1 and rnd.random() < 0.5 else None
+            files = [data] if cut is None else [data[:cut], data[cut:]]
+            # what the pipe repeats: the last generated value (which the run never got to: its first copy is a new row), or the very first value
+            # (read for sure: under --unique or a filter its copies never reach the limiter - but the rows are out, nothing more is needed)
+            cyc2 = cyc if rnd.random() < 0.4 else PL.G.canonical(vals[0]) + (sep or b" ")
+            run = {"argv": PL.cfg_argv(cfg, rnd, extra) + ["@FILE%d" % k for k in range(len(files))] + ["@FIFO"], "stdin": "", "files": [hexs(f) for f in files],
+                   "fifo": {"prefix": "", "cycle": hexs(cyc2), "cap": 4 << 20}, "timeout_ms": 30000}
+            base, src, use_fifo = len(data), "files+fifo", True
         cs.add({"kind": "stop", "cfg": cfg, "input": [enc(v) for v in vals], "ends": ends, "slack": SLACK_FILE if use_fifo else SLACK_STDIN,
-                "runs": [run], "src": "fifo" if use_fifo else "stdin"})
+                "runs": [run], "src": src, "base": base})
 
 
 def gen_parent_filter(cs, rnd, n):
@@ -108,11 +120,12 @@ def check(tier, seed, replay=None):
         PC.expect_dev(chk, "DevSwallowBreak", "split", 3, "StopsReading")
         PC.expect_dev(chk, "DevSwallowBreak", "split", 0, prop="Terminates", live=True)
         PC.expect_dev(chk, "DevSplitLast", "split", 3, "StopsReading")
+        PC.expect_dev(chk, "DevBreakEndsFileOnly", "split", 2, "BreakEndsReading")
         PC.model_check(chk, ["split"], 2, ["HeadStops", "BreakPropagates", "LimiterLatched"], workers=8)
         PC.expect_dev(chk, "DevSwallowBreak", "split", 2, "BreakPropagates")
         gen(cs, rnd, 200 if quick else 5000)
         gen_parent_filter(cs, rnd, 12 if quick else 300)
     per, recs = PC.run_and_validate(chk, jvh, cs, "c14", nproc=2 if tier == "quick" else 12)
-    chk.notes["sources"] = {"stdin": sum(1 for r in cs.recipes if r.get("src") == "stdin"), "fifo": sum(1 for r in cs.recipes if r.get("src") == "fifo")}
+    chk.notes["sources"] = {k: sum(1 for r in cs.recipes if r.get("src") == k) for k in ("stdin", "fifo", "files+fifo")}
     PC.summarize(chk, cs, per, lambda rc: (rc["cfg"]["take"] >= 1 or rc["cfg"]["skip"] >= 1) and len(rc["runs"][0]["argv"]) >= 2)
     return chk.finish()
